@@ -5,6 +5,7 @@ import (
 	"go/ast"
 	"go/token"
 	"sort"
+	"strconv"
 	"strings"
 )
 
@@ -141,6 +142,9 @@ func genC04(g *Gen) error {
 
 	// ---- locks held at the statements the model treats as atomic steps
 	marks := []struct{ fn, stmt, step string }{
+		// (a statement followed by #n is the n-th statement of the function that starts like this)
+		{"shard.WriteRows", "if s.isClosing() {#2", "write: closing flag re-checked"},
+		{"shard.WriteRows", "defer s.markBeingWritten()()", "write: counted as in flight"},
 		{"shard.writeRows", "err := s.activeTbl.MTable.WriteRows(", "write: apply"},
 		{"shard.writeRows", "if err = s.wal.Write(", "write: append"},
 		{"tsstoreImpl.writeSnapshot", "walFiles, err := s.wal.Switch()", "switch: wal"},
@@ -224,6 +228,7 @@ type lockAnalysis struct {
 	// marker search
 	markFn   *lockFunc
 	markStmt string
+	markSkip int
 	markHeld []string
 	markHit  bool
 	// locks held at the `break` statements of the innermost loop / switch being walked
@@ -511,7 +516,7 @@ func (a *lockAnalysis) visitCalls(f *lockFunc, n ast.Node, held heldSet, record 
 }
 
 func (a *lockAnalysis) mark(f *lockFunc, s ast.Stmt, held heldSet) {
-	if a.markFn == f && !a.markHit && strings.HasPrefix(a.g.Src(s), a.markStmt) {
+	if a.markFn == f && !a.markHit && strings.HasPrefix(a.g.Src(s), a.markStmt) && a.skipMark() {
 		a.markHit = true
 		a.markHeld = append([]string{}, held...)
 	}
@@ -648,7 +653,22 @@ func (a *lockAnalysis) walkBlock(f *lockFunc, stmts []ast.Stmt, held heldSet, re
 
 // heldAt returns the locks held when the first statement of f whose source starts with stmt
 // is reached.
+// skipMark: true when the statement that matches is the one that was asked for.
+func (a *lockAnalysis) skipMark() bool {
+	if a.markSkip > 0 {
+		a.markSkip--
+		return false
+	}
+	return true
+}
+
 func (a *lockAnalysis) heldAt(f *lockFunc, stmt string) ([]string, bool) {
+	a.markSkip = 0
+	if i := strings.LastIndex(stmt, "#"); i > 0 {
+		if n, err := strconv.Atoi(stmt[i+1:]); err == nil && n > 0 {
+			stmt, a.markSkip = stmt[:i], n-1
+		}
+	}
 	a.markFn, a.markStmt, a.markHit, a.markHeld = f, stmt, false, nil
 	a.walkFunc(f, false)
 	a.markFn = nil
